@@ -55,6 +55,9 @@ def showOut (o : Out) : String :=
   let flat := "|".intercalate (o.rows.map fun r => ";".intercalate (r.map fun e => s!"{flatIndex o.dims e.2}:{e.1}"))
   s!"{showNats o.dims} # {o.rows.length} # {rows} # {flat}"
 
+/-- executable form of `DimsCompatible` (hypothesis of the reduce_permutation theorems) -/
+def dimsCompatibleB (g : List SPerm) (dims : List Nat) : Bool := g.all fun a => act dims a.2 == dims
+
 def handle (op : String) (a : List String) : String :=
   match op, a with
   | "is_perm", [p] => "ok " ++ toString (isPerm (parseNats p))
@@ -76,7 +79,9 @@ def handle (op : String) (a : List String) : String :=
       "ok " ++ toString (matMul (natRepRaw p) (natRepRaw q) n == natRepRaw (composeRaw p q)) ++ " " ++
         toString (matMul (natRepRaw p) (transpose (natRepRaw p) n) n == idMatrix n)
   | "gf", [f] => ex (fun r => showStr r.1 ++ " # " ++ showSigned r.2) (germinateFormulas (String.ofList (parseStr f)))
-  | "rp", [f0, g, d] => ex showOut (reducePermutation (parseStr f0) (parseSigned g) (parseDims d))
+  | "rp", [f0, g, d] =>
+      let G := parseSigned g
+      ex (fun o => showOut o ++ " # " ++ toString (dimsCompatibleB G o.dims)) (reducePermutation (parseStr f0) G (parseDims d))
   | _, _ => "error:bad-op"
 
 partial def loop (h : IO.FS.Stream) (out : IO.FS.Stream) : IO Unit := do
